@@ -1,11 +1,106 @@
 import DryocVerif.Model.Curve
-import DryocVerif.Model.Sign
+import DryocVerif.Model.CurveInst
+import DryocVerif.Spec.Blake2b
+import DryocVerif.Proofs.Curve
+/-
+C12 — `crypto_kdf_derive_from_key` (/repo/src/classic/crypto_kdf.rs).
+
+* the length check: exactly the sub-key lengths outside 16..=64 are refused, nothing panics;
+* the derivation is libsodium's construction: keyed BLAKE2b with
+  salt = LE64(subkey_id) ‖ 0⁸ and personalisation = ctx ‖ 0⁸, empty message;
+* domain separation: the BLAKE2b parameter block (the only place where the sub-key
+  length, the sub-key id and the context enter the hash) is injective in
+  (length, id, context) over the admissible range.
+-/
 namespace DryocVerif.Properties.C12
-open DryocVerif
+open DryocVerif DryocVerif.Model.Curve
 
 /-- key derivation rejects exactly the lengths outside 16..=64 -/
 theorem kdf_err_iff (P : Model.Curve.Prims) (len id : Nat) (ctx key : Bytes) :
     Model.Curve.kdfDerive P len id ctx key = .err ↔ len < 16 ∨ 64 < len := by
   unfold Model.Curve.kdfDerive; split <;> simp_all
+
+theorem kdf_never_panics (P : Prims) (len id : Nat) (ctx key : Bytes) :
+    kdfDerive P len id ctx key ≠ .panic := by
+  unfold kdfDerive; split <;> simp
+
+/-- for admissible lengths the result is the primitive applied to libsodium's arguments -/
+theorem kdf_ok (P : Prims) (len id : Nat) (ctx key : Bytes) (h1 : 16 ≤ len) (h2 : len ≤ 64) :
+    kdfDerive P len id ctx key = .ok (P.blake2b len key (toLE 8 id ++ zeros 8) (ctx ++ zeros 8) []) := by
+  unfold kdfDerive; rw [if_neg (by omega)]
+
+/-- libsodium's `crypto_kdf_blake2b_derive_from_key`:
+BLAKE2b(outlen = len, key, salt = LE64(id) ‖ 0⁸, personal = ctx ‖ 0⁸, message = "") -/
+theorem kdf_eq_spec (len id : Nat) (ctx key : Bytes) (h1 : 16 ≤ len) (h2 : len ≤ 64) :
+    kdfDerive specPrims len id ctx key =
+      .ok (Spec.Blake2b.hashSP len key (toLE 8 id ++ zeros 8) (ctx ++ zeros 8) []) :=
+  kdf_ok specPrims len id ctx key h1 h2
+
+/-- the sub-key id only enters modulo 2^64 (it is a `u64` in Rust) -/
+theorem kdf_id_mod (P : Prims) (len id : Nat) (ctx key : Bytes) :
+    kdfDerive P len (id % 2 ^ 64) ctx key = kdfDerive P len id ctx key := by
+  have : toLE 8 (id % 2 ^ 64) = toLE 8 id := Proofs.Curve.toLE_mod 8 id
+  unfold kdfDerive; rw [this]
+
+/-- salt and personalisation handed to BLAKE2b are full 16-byte fields, so the parameter
+block contains them verbatim -/
+theorem kdf_salt_personal_length (id : Nat) (ctx : Bytes) (h : ctx.length = 8) :
+    (toLE 8 id ++ zeros 8).length = 16 ∧ (ctx ++ zeros 8).length = 16 := by
+  simp [Proofs.Curve.toLE_length, zeros, h]
+
+/-- Domain separation: for admissible sub-key lengths, 64-bit ids and 8-byte contexts the
+BLAKE2b parameter block determines (length, id, context). -/
+theorem param_block_injective (len len' id id' kl : Nat) (ctx ctx' : Bytes)
+    (hl : 16 ≤ len ∧ len ≤ 64) (hl' : 16 ≤ len' ∧ len' ≤ 64)
+    (hid : id < 2 ^ 64) (hid' : id' < 2 ^ 64)
+    (hc : ctx.length = 8) (hc' : ctx'.length = 8)
+    (h : Spec.Blake2b.paramBlock len kl (toLE 8 id ++ zeros 8) (ctx ++ zeros 8) =
+         Spec.Blake2b.paramBlock len' kl (toLE 8 id' ++ zeros 8) (ctx' ++ zeros 8)) :
+    len = len' ∧ id = id' ∧ ctx = ctx' := by
+  obtain ⟨ho, -, hs, hq⟩ := Proofs.Curve.paramBlock_inj _ _ _ _ _ _ _ _ h
+  rw [Proofs.Curve.fit_of_length _ _ (kdf_salt_personal_length id ctx hc).1,
+      Proofs.Curve.fit_of_length _ _ (kdf_salt_personal_length id' ctx' hc').1] at hs
+  rw [Proofs.Curve.fit_of_length _ _ (kdf_salt_personal_length id ctx hc).2,
+      Proofs.Curve.fit_of_length _ _ (kdf_salt_personal_length id' ctx' hc').2] at hq
+  refine ⟨Proofs.Curve.ofNat_inj_of_lt _ _ (by omega) (by omega) ho, ?_, ?_⟩
+  · have := (List.append_inj hs (by simp [Proofs.Curve.toLE_length])).1
+    exact Proofs.Curve.toLE_inj 8 id id' (by omega) (by omega) this
+  · exact (List.append_inj hq (by omega)).1
+
+/-- the statement of the brief: 32-byte keys, i.e. key length field 32 -/
+theorem param_block_injective_32 (len len' id id' : Nat) (ctx ctx' : Bytes)
+    (hl : 16 ≤ len ∧ len ≤ 64) (hl' : 16 ≤ len' ∧ len' ≤ 64)
+    (hid : id < 2 ^ 64) (hid' : id' < 2 ^ 64)
+    (hc : ctx.length = 8) (hc' : ctx'.length = 8)
+    (h : Spec.Blake2b.paramBlock len 32 (toLE 8 id ++ zeros 8) (ctx ++ zeros 8) =
+         Spec.Blake2b.paramBlock len' 32 (toLE 8 id' ++ zeros 8) (ctx' ++ zeros 8)) :
+    len = len' ∧ id = id' ∧ ctx = ctx' :=
+  param_block_injective len len' id id' 32 ctx ctx' hl hl' hid hid' hc hc' h
+
+/-- the initial chaining value of the derivation depends on (len, id, ctx) only through
+that parameter block -/
+theorem kdf_initState (len id : Nat) (ctx key : Bytes) :
+    Spec.Blake2b.initState len key.length (toLE 8 id ++ zeros 8) (ctx ++ zeros 8) =
+      ((List.range 8).map fun i => Spec.Blake2b.IV[i]! ^^^
+        (Spec.Blake2b.wordsOfBytes 8
+          (Spec.Blake2b.paramBlock len key.length (toLE 8 id ++ zeros 8) (ctx ++ zeros 8)))[i]!).toArray :=
+  rfl
+
+/-! ### non-vacuity -/
+
+example : kdfDerive specPrims 15 0 (zeros 8) (zeros 32) = .err := by decide
+example : kdfDerive specPrims 65 0 (zeros 8) (zeros 32) = .err := by decide
+example : ∃ out, kdfDerive specPrims 16 7 (zeros 8) (zeros 32) = .ok out :=
+  ⟨_, kdf_eq_spec 16 7 _ _ (by decide) (by decide)⟩
+
+/-- without the bound on the id the parameter block is *not* injective (ids are `u64`) -/
+example : Spec.Blake2b.paramBlock 32 32 (toLE 8 0 ++ zeros 8) (zeros 8 ++ zeros 8) =
+    Spec.Blake2b.paramBlock 32 32 (toLE 8 (2 ^ 64) ++ zeros 8) (zeros 8 ++ zeros 8) := by decide
+
+/-- the parameter block of a 32-byte sub-key, id 1, context "Examples" -/
+example : Spec.Blake2b.paramBlock 32 32 (toLE 8 1 ++ zeros 8)
+      ([0x45, 0x78, 0x61, 0x6d, 0x70, 0x6c, 0x65, 0x73] ++ zeros 8) =
+    [32, 32, 1, 1] ++ zeros 28 ++ (1 :: zeros 15) ++
+      ([0x45, 0x78, 0x61, 0x6d, 0x70, 0x6c, 0x65, 0x73] ++ zeros 8) := by decide
 
 end DryocVerif.Properties.C12
